@@ -66,6 +66,7 @@ struct WriteRec {
     std::vector<uint8_t> data;
     int                  op    = 0;
     uint32_t             evseq = 0;
+    std::string          site; // library call chain of the write, innermost first (only with keep_writelog_sites; not serialised)
 };
 
 static const int64_t PAGE = 4096;
@@ -105,6 +106,7 @@ uint64_t event_hash();
 const std::vector<WriteRec> &writelog();
 void     clear_writelog();
 void     keep_writelog(bool on);
+void     keep_writelog_sites(bool on); // record the library call chain of every logged write
 void     freeze(const std::string &path, bool on); // C14 mutation monitor
 void     freeze_all(bool on);
 const std::vector<std::string> &mutations();      // mutating events seen on frozen files
